@@ -5,6 +5,7 @@
 //! clear, an issuance is present iff it is not null, nonces are Null / 32-byte explicit / valid
 //! compressed public key, commitments are real curve points.
 
+pub mod ct;
 pub mod pool;
 pub mod mutate;
 
